@@ -24,8 +24,13 @@
      with a list not naming p; every store): it returns normally, or raises with
      everything released, p still unbound and every list text well formed — and
      the same call made again at once returns normally.
-  Not proved: that a one-off plan aimed anywhere else never fires, the roll-back
-  inside store_object's own placement phase, and one-off plans in general (established by the fault sweep of this check on the real code and by
+   * the same for `store_object(p, data)` without validation arguments, in the
+     four starting cases (object absent / present, cid list absent / present):
+     every fault site of placement and tagging; after the failure the pid is
+     unbound, nothing foreign was added, and the same call made again at once
+     returns normally and the data is retrievable.
+  Not proved: that a one-off plan aimed at no site of the run never fires;
+  `store_object` with validation arguments (established by the fault sweep of this check on the real code and by
   model/code agreement under every plan).
 -/
 import HSModel.Props.C09
@@ -34,6 +39,7 @@ import HSModel.Proofs.FaultMeta
 import HSModel.Proofs.OkStore
 import HSModel.Proofs.OkDelete
 import HSModel.Proofs.RollbackAll
+import HSModel.Proofs.RollbackStoreAll
 namespace HS.C13
 variable (cfg : Config) (o : Oracle)
 
@@ -127,6 +133,61 @@ theorem retry_at_once_succeeds (st : Store) (p c : Str) (r : Except Exc Val) (w'
     (hrb : RolledBack o p st r w') (herr : ∀ v, r ≠ .ok v) :
     ((tagObject cfg o (.str p) (.str c)).run w').1 = .ok .unit :=
   retry_after_rollback cfg o st p c r w' hp hc hnl hrb herr
+
+/-- **one-off failures of `store_object` roll back**, the four starting cases
+    (every store in which p is unbound; c = digest of the data): a one-off failure
+    at each fault site of the fault-free run leaves the call successful, or raised
+    with everything released, p unbound, list texts well formed, no object added
+    other than the data at its own address, and the plan spent -/
+theorem store_one_off_failure_rolls_back (st : Store) (log : List Eff) (p : Str) (t : Tok)
+    (hp : checkStringOk p = true) (hok : OkDigests o) (h1 : st.pidRefs.get (o.hId p) = none) :
+    (st.cidRefs.get (o.dig cfg.alg t) = none → st.objs.get (o.dig cfg.alg t) = none →
+      ∀ s ∈ storeSites_absent_new cfg o p t, ∃ r w', (storeObject cfg o (.str p) (.ok t) .none .none .none .none).run
+        (planned st log s.1 s.2.1 s.2.2) = (r, w') ∧ RolledBackStore cfg o p t st r w') ∧
+    (∀ x, st.cidRefs.get (o.dig cfg.alg t) = none → st.objs.get (o.dig cfg.alg t) = some x →
+      ∀ s ∈ storeSites_present_new cfg o p t, ∃ r w', (storeObject cfg o (.str p) (.ok t) .none .none .none .none).run
+        (planned st log s.1 s.2.1 s.2.2) = (r, w') ∧ RolledBackStore cfg o p t st r w') ∧
+    (∀ ls, st.cidRefs.get (o.dig cfg.alg t) = some (renderLines ls) → (∀ l ∈ ls, hasSpace l = false) → p ∉ ls → ls ≠ [] →
+      st.objs.get (o.dig cfg.alg t) = none →
+      ∀ s ∈ storeSites_absent_app cfg o p t, ∃ r w', (storeObject cfg o (.str p) (.ok t) .none .none .none .none).run
+        (planned st log s.1 s.2.1 s.2.2) = (r, w') ∧ RolledBackStore cfg o p t st r w') ∧
+    (∀ ls x, st.cidRefs.get (o.dig cfg.alg t) = some (renderLines ls) → (∀ l ∈ ls, hasSpace l = false) → p ∉ ls → ls ≠ [] →
+      st.objs.get (o.dig cfg.alg t) = some x →
+      ∀ s ∈ storeSites_present_app cfg o p t, ∃ r w', (storeObject cfg o (.str p) (.ok t) .none .none .none .none).run
+        (planned st log s.1 s.2.1 s.2.2) = (r, w') ∧ RolledBackStore cfg o p t st r w') :=
+  ⟨fun h2 ho => store_absent_new_all cfg o st log p t hp hok h1 h2 ho,
+   fun x h2 ho => store_present_new_all cfg o st log p t x hp hok h1 h2 ho,
+   fun ls h2 hls hnot hne ho => store_absent_app_all cfg o st log p t ls hp hok h1 h2 hls hnot hne ho,
+   fun ls x h2 hls hnot hne ho => store_present_app_all cfg o st log p t x ls hp hok h1 h2 hls hnot hne ho⟩
+
+/-- the four site lists are exactly the fault sites of the fault-free runs -/
+theorem store_fault_sites_complete (st : Store) (log : List Eff) (p : Str) (t : Tok)
+    (hp : checkStringOk p = true) (hok : OkDigests o) (h1 : st.pidRefs.get (o.hId p) = none) :
+    (st.cidRefs.get (o.dig cfg.alg t) = none → st.objs.get (o.dig cfg.alg t) = none →
+      sitesOfRun (storeObject cfg o (.str p) (.ok t) .none .none .none .none) (calm st log) = storeSites_absent_new cfg o p t) ∧
+    (∀ x, st.cidRefs.get (o.dig cfg.alg t) = none → st.objs.get (o.dig cfg.alg t) = some x →
+      sitesOfRun (storeObject cfg o (.str p) (.ok t) .none .none .none .none) (calm st log) = storeSites_present_new cfg o p t) ∧
+    (∀ ls, st.cidRefs.get (o.dig cfg.alg t) = some (renderLines ls) → (∀ l ∈ ls, hasSpace l = false) → p ∉ ls →
+      st.objs.get (o.dig cfg.alg t) = none →
+      sitesOfRun (storeObject cfg o (.str p) (.ok t) .none .none .none .none) (calm st log) = storeSites_absent_app cfg o p t) ∧
+    (∀ ls x, st.cidRefs.get (o.dig cfg.alg t) = some (renderLines ls) → (∀ l ∈ ls, hasSpace l = false) → p ∉ ls →
+      st.objs.get (o.dig cfg.alg t) = some x →
+      sitesOfRun (storeObject cfg o (.str p) (.ok t) .none .none .none .none) (calm st log) = storeSites_present_app cfg o p t) :=
+  ⟨fun h2 ho => store_sites_absent_new_complete cfg o st log p t hp hok h1 h2 ho,
+   fun x h2 ho => store_sites_present_new_complete cfg o st log p t x hp hok h1 h2 ho,
+   fun ls h2 hls hnot ho => store_sites_absent_app_complete cfg o st log p t ls hp hok h1 h2 hls hnot ho,
+   fun ls x h2 hls hnot ho => store_sites_present_app_complete cfg o st log p t x ls hp hok h1 h2 hls hnot ho⟩
+
+/-- **… and the pid can be stored again at once**: after a rolled-back failure,
+    the same `store_object` call made again returns normally, and
+    `retrieve_object` returns the data -/
+theorem store_retry_at_once_succeeds (st : Store) (p : Str) (t : Tok) (r : Except Exc Val) (w' : World)
+    (hp : checkStringOk p = true) (hok : OkDigests o) (hnl : AllNl st.cidRefs)
+    (hfree : st.objs.get (o.dig cfg.alg t) = none ∨ st.objs.get (o.dig cfg.alg t) = some t)
+    (hrb : RolledBackStore cfg o p t st r w') (herr : ∀ v, r ≠ .ok v) :
+    ∃ m w2, (storeObject cfg o (.str p) (.ok t) .none .none .none .none).run w' = (.ok (.objMeta m), w2) ∧
+      ((retrieveObject cfg o (.str p)).run { w2 with fault := none }).1 = .ok (.content t) :=
+  store_retry_after_rollback cfg o st p t r w' hp hok hnl hfree hrb herr
 
 /-- a one-off plan that has fired never fails another primitive -/
 theorem one_off_fires_once (f : Fault) (e : Ev) (hf : f.fired = true) (hp : f.persistent = false) :
